@@ -31,23 +31,27 @@ variable {σ : Type} (kmX kmY : ℕ → ℕ → ℤ) (smp : Sampler σ)
 
 /-! ## the spaces `X'`, `Y'` exist and are metric spaces -/
 
-/-- **whenever a pair call returns, both graphs have a block metric** — a genuine finite metric (zero
-    diagonal, positive off it, symmetric, triangle inequality), unique, on `1 ≤ n ≤ |V|` points; it is the
-    matrix handed to `estimate`, and that matrix meets C05's hypothesis `DistMat`. -/
+/-- **whenever a pair call returns, both graphs have a block metric, and it is the matrix `estimate` ran on**:
+    the two matrices `makeDist` produced meet C05's hypothesis `DistMat`; read as functions they are the block
+    metrics of `G` and `H` — genuine finite metrics (zero diagonal, positive off it, symmetric, triangle
+    inequality) on `1 ≤ n ≤ |V|` points — and the block metric is unique. -/
 theorem public_pair_spaces {G H : Mat} {s s' : σ} {lb ub : Val}
     (h : publicGH kmX kmY smp (.pair G H) s = .ok (.pair lb ub, s')) :
-    ∃ (n m : ℕ) (dX : Fin n → Fin n → ℕ) (dY : Fin m → Fin m → ℕ),
-      (0 < n ∧ n ≤ G.length) ∧ (0 < m ∧ m ≤ H.length) ∧
-      IsBlockMetric G dX ∧ IsBlockMetric H dY ∧ IsMetric dX ∧ IsMetric dY ∧
-      (∀ d' : Fin n → Fin n → ℕ, IsBlockMetric G d' → d' = dX) ∧
-      (∀ d' : Fin m → Fin m → ℕ, IsBlockMetric H d' → d' = dY) := by
-  obtain ⟨rX, rY, hX, hY, _⟩ := (pair_ok_iff _ _ G H s s' lb ub).1 h
-  obtain ⟨pX, _, bX, mX⟩ := makeDist_facts hX
-  obtain ⟨pY, _, bY, mY⟩ := makeDist_facts hY
+    ∃ rX rY : DistResult, makeDist G = .ok rX ∧ makeDist H = .ok rY ∧
+      publicEst kmX kmY smp s rX.dist rY.dist = ((lb, ub), s') ∧
+      (0 < rX.dist.length ∧ rX.dist.length ≤ G.length) ∧ (0 < rY.dist.length ∧ rY.dist.length ≤ H.length) ∧
+      DistMat rX.dist rX.dist.length ∧ DistMat rY.dist rY.dist.length ∧
+      IsBlockMetric G (matFn rX.dist rX.dist.length) ∧ IsBlockMetric H (matFn rY.dist rY.dist.length) ∧
+      IsMetric (matFn rX.dist rX.dist.length) ∧ IsMetric (matFn rY.dist rY.dist.length) ∧
+      (∀ {n : ℕ} (d : Fin n → Fin n → ℕ), IsBlockMetric G d → rX.dist.length = n ∧ d = matFn rX.dist n) ∧
+      (∀ {m : ℕ} (d : Fin m → Fin m → ℕ), IsBlockMetric H d → rY.dist.length = m ∧ d = matFn rY.dist m) := by
+  obtain ⟨rX, rY, hX, hY, he⟩ := (pair_ok_iff _ _ G H s s' lb ub).1 h
+  obtain ⟨pX, dmX, bX, mX⟩ := makeDist_facts hX
+  obtain ⟨pY, dmY, bY, mY⟩ := makeDist_facts hY
   have lX := (C17.fallback_is_metric G (isSquare_of_makeDist hX) rX hX).1.2.1
   have lY := (C17.fallback_is_metric H (isSquare_of_makeDist hY) rY hY).1.2.1
-  exact ⟨_, _, _, _, ⟨pX, lX⟩, ⟨pY, lY⟩, bX, bY, mX, mY, fun d' hd' => hd'.unique bX,
-    fun d' hd' => hd'.unique bY⟩
+  exact ⟨rX, rY, hX, hY, he, ⟨pX, lX⟩, ⟨pY, lY⟩, dmX, dmY, bX, bY, mX, mY,
+    fun d hd => hd.eq_matFn hX, fun d hd => hd.eq_matFn hY⟩
 
 /-! ## (a) the pair call brackets mGH -/
 
@@ -62,6 +66,19 @@ theorem public_pair_brackets (hv : SamplerValid smp) {G H : Mat} {s s' : σ} {lo
     lo ≤ mGH dX dY ∧ mGH dX dY ≤ hi ∧ ∃ a b : ℕ, lo = (a : ℚ) / 2 ∧ hi = (b : ℚ) / 2 := by
   obtain ⟨rX, rY, hX, hY, he⟩ := (pair_ok_iff _ _ G H s s' _ _).1 h
   exact publicEst_brackets kmX kmY smp hv hX hY s (congrArg Prod.fst he) bX bY
+
+/-- for CONNECTED graphs the statement is about the shortest-path metrics of the whole graphs: `dX a b` is
+    the length of a shortest walk from `a` to `b` in `G`, for all vertices `a, b` -/
+theorem public_pair_brackets_connected (hv : SamplerValid smp) {G H : Mat} (hG : Connected (adjOf G))
+    (hH : Connected (adjOf H)) {s s' : σ} {lo hi : ℚ}
+    (h : publicGH kmX kmY smp (.pair G H) s = .ok (.pair (.ok lo) (.ok hi), s'))
+    [NeZero G.length] [NeZero H.length] {dX : Fin G.length → Fin G.length → ℕ}
+    {dY : Fin H.length → Fin H.length → ℕ}
+    (bX : ∀ a b : Fin G.length, IsDist (Adj (adjOf G)) a b (dX a b))
+    (bY : ∀ a b : Fin H.length, IsDist (Adj (adjOf H)) a b (dY a b)) :
+    lo ≤ mGH dX dY ∧ mGH dX dY ≤ hi ∧ ∃ a b : ℕ, lo = (a : ℚ) / 2 ∧ hi = (b : ℚ) / 2 :=
+  public_pair_brackets kmX kmY smp hv h ((isBlockMetric_connected hG dX).2 ⟨rfl, bX⟩)
+    ((isBlockMetric_connected hH dY).2 ⟨rfl, bY⟩)
 
 /-- the lower half needs nothing from the generator: whatever the sampler does (valid or not), a returned
     lower bound is `≤ mGH` -/
@@ -339,5 +356,95 @@ example : isSquare P3adj = true ∧ isSquare C4adj = true ∧ isSquare K3adj = t
 example : makeDist P3adj = .ok ⟨C05.P3, false, .i8⟩ ∧ makeDist C4adj = .ok ⟨C05.C4, false, .i8⟩ ∧
     makeDist K3adj = .ok ⟨C05.K3, false, .i8⟩ ∧
     makeDist C17.G32 = .ok ⟨[[0,1,1],[1,0,2],[1,2,0]], true, .i8⟩ := by decide
+
+/-- their block metrics (non-vacuity of the `IsBlockMetric` hypotheses): the full shortest-path metric of a
+    connected graph, the metric of the star `{0,1,2}` for `G32` -/
+example : IsBlockMetric P3adj (matFn C05.P3 3) ∧ IsBlockMetric C4adj (matFn C05.C4 4) ∧
+    IsBlockMetric K3adj (matFn C05.K3 3) ∧ IsBlockMetric C17.G32 (matFn [[0,1,1],[1,0,2],[1,2,0]] 3) :=
+  ⟨(makeDist_facts (r := ⟨C05.P3, false, .i8⟩) (by decide)).2.2.1,
+   (makeDist_facts (r := ⟨C05.C4, false, .i8⟩) (by decide)).2.2.1,
+   (makeDist_facts (r := ⟨C05.K3, false, .i8⟩) (by decide)).2.2.1,
+   (makeDist_facts (r := ⟨[[0,1,1],[1,0,2],[1,2,0]], true, .i8⟩) (by decide)).2.2.1⟩
+
+example : kept C17.G32 = [0, 1, 2] ∧ kept P3adj = [0, 1, 2] := by decide
+
+/-- **P3 vs C4** (what the real code returns too: `(0.5, 0.5)`) -/
+example : publicGH MGH.exactMul MGH.exactMul demoSampler (.pair P3adj C4adj) 0 =
+    .ok (.pair (.ok (1/2)) (.ok (1/2)), 1) := by decide +kernel
+
+/-- `public_pair_brackets` at work: the returned pair pins `mGH(P3, C4) = 1/2`
+    (C05's exhaustive oracle: `mgh2Brute P3 C4 = some 1`) -/
+example : mGH (matFn C05.P3 3) (matFn C05.C4 4) = 1 / 2 := by
+  have h := public_pair_brackets MGH.exactMul MGH.exactMul demoSampler demoSampler_valid
+    (G := P3adj) (H := C4adj) (s := 0) (s' := 1) (lo := 1/2) (hi := 1/2) (by decide +kernel)
+    (dX := matFn C05.P3 3) (dY := matFn C05.C4 4)
+    (makeDist_facts (r := ⟨C05.P3, false, .i8⟩) (by decide)).2.2.1
+    (makeDist_facts (r := ⟨C05.C4, false, .i8⟩) (by decide)).2.2.1
+  exact le_antisymm h.2.1 h.1
+
+/-- **a disconnected graph (3 + 2 vertices) vs the triangle**: the fallback block (the star on `{0,1,2}`) is
+    what is compared; no error, a bracket -/
+example : publicGH MGH.exactMul MGH.exactMul demoSampler (.pair C17.G32 K3adj) 5 =
+    .ok (.pair (.ok (1/2)) (.ok (1/2)), 6) := by decide +kernel
+
+example : mGH (matFn [[0,1,1],[1,0,2],[1,2,0]] 3) (matFn C05.K3 3) = 1 / 2 := by
+  have h := public_pair_brackets MGH.exactMul MGH.exactMul demoSampler demoSampler_valid
+    (G := C17.G32) (H := K3adj) (s := 5) (s' := 6) (lo := 1/2) (hi := 1/2) (by decide +kernel)
+    (dX := matFn [[0,1,1],[1,0,2],[1,2,0]] 3) (dY := matFn C05.K3 3)
+    (makeDist_facts (r := ⟨[[0,1,1],[1,0,2],[1,2,0]], true, .i8⟩) (by decide)).2.2.1
+    (makeDist_facts (r := ⟨C05.K3, false, .i8⟩) (by decide)).2.2.1
+  exact le_antisymm h.2.1 h.1
+
+/-- **a collection** of four graphs in mixed formats, one disconnected: entry `(0, 2)` is `0` because the
+    fallback block of `G32` is a relabelled `P3` -/
+example : publicGH MGH.exactMul MGH.exactMul demoSampler (.coll [P3adj, C4adj, C17.G32, K3adj]) 0 =
+    .ok (.mats
+      [[.ok 0, .ok (1/2), .ok 0, .ok (1/2)], [.ok (1/2), .ok 0, .ok (1/2), .ok (1/2)],
+       [.ok 0, .ok (1/2), .ok 0, .ok (1/2)], [.ok (1/2), .ok (1/2), .ok (1/2), .ok 0]]
+      [[.ok 0, .ok (1/2), .ok 0, .ok (1/2)], [.ok (1/2), .ok 0, .ok (1/2), .ok (1/2)],
+       [.ok 0, .ok (1/2), .ok 0, .ok (1/2)], [.ok (1/2), .ok (1/2), .ok (1/2), .ok 0]], 6) := by
+  decide +kernel
+
+/-- **`public_iso_lb_zero`, non-vacuity**: the 4-cycle is connected; `C4rel` is the relabelling
+    `C4[p][:, p]`, `p = [2,0,3,1]`, stored lower-triangular with other weights -/
+def C4rel : Mat := [[0,0,0,0],[0,0,0,0],[3,5,0,0],[2,9,0,0]]
+
+example : Connected (adjOf C4adj) :=
+  (Graph.hasInf_false_iff_connected _ (Graph.adjOf_Symm _)).1 (by decide)
+example : [2, 0, 3, 1].Perm (List.range C4adj.length) := by decide
+example : adjOf C4rel = adjOf (Graph.sub 0 [2, 0, 3, 1] C4adj) ∧ C4rel ≠ Graph.sub 0 [2, 0, 3, 1] C4adj := by
+  decide
+example : publicGH MGH.exactMul MGH.exactMul demoSampler (.pair C4adj C4rel) 0 =
+    .ok (.pair (.ok 0) (.ok 0), 1) := by decide +kernel
+
+/-- **`public_lb_deterministic`, non-vacuity**: a second sampler (one reversed permutation per direction, last
+    point as first image).  On the 5-path vs the 5-star the two samplers return DIFFERENT upper bounds and
+    the same lower bound. -/
+def revSampler : Sampler Unit := fun _ DX DY =>
+  (⟨[(List.range DX.length).reverse], [DY.length - 1], [(List.range DY.length).reverse], [DX.length - 1]⟩, ())
+
+def P5adj : Mat := [[0,1,0,0,0],[0,0,1,0,0],[0,0,0,1,0],[0,0,0,0,1],[0,0,0,0,0]]
+def S5adj : Mat := [[0,1,1,1,1],[0,0,0,0,0],[0,0,0,0,0],[0,0,0,0,0],[0,0,0,0,0]]
+
+example : makeDist P5adj = .ok ⟨C05.P5, false, .i8⟩ ∧ makeDist S5adj = .ok ⟨C05.S5, false, .i8⟩ := by decide
+
+example :
+    publicGH MGH.exactMul MGH.exactMul demoSampler (.pair P5adj S5adj) 0 = .ok (.pair (.ok 1) (.ok (3/2)), 1) ∧
+    publicGH MGH.exactMul MGH.exactMul revSampler (.pair P5adj S5adj) () = .ok (.pair (.ok 1) (.ok 1), ()) := by
+  decide +kernel
+
+/-- **the `SamplerEnough` guard is the code's**: a sample size of 0 (the float power
+    `|X|^a · log(|X|+1)^b` underflows, e.g. `mapping_sample_size_order = [-1e6, 0]`) makes `next(…)` raise
+    `StopIteration` in the real `find_ub_of_min_distortion`; in the model the sampler is valid, not enough,
+    the lower bound is still computed and the `ub` slot carries the exception. -/
+def zeroSampler : Sampler Unit := fun _ _ _ => (⟨[], [], [], []⟩, ())
+
+example : SamplerValid zeroSampler ∧ ¬ SamplerEnough zeroSampler := by
+  refine ⟨fun s DX DY _ _ => ?_, fun h => ?_⟩
+  · simp [zeroSampler, Draws.Valid]
+  · exact (h () [[0]] [[0]] (by decide) (by decide)).1 rfl
+
+example : publicGH MGH.exactMul MGH.exactMul zeroSampler (.pair P3adj C4adj) () =
+    .ok (.pair (.ok (1/2)) (.error .stopIteration), ()) := by decide +kernel
 
 end PersimVerif.MGHPublic
